@@ -133,7 +133,7 @@ def build(spec, warm=None):
             base = touch(fmtstr(text))
             part = fmtstr(base, **atts)
             if (c >> 4) % 48 == 1:
-                touch_interrupted(part, 1 + (c >> 8) % 12)
+                touch_interrupted(part, 1 + (c >> 8) % 36)
             touch(part)
         else:
             part = fmtstr(text, **atts)
@@ -146,7 +146,7 @@ def build(spec, warm=None):
             f = f + part
             if warm:
                 if (c >> 6) % 24 == 1:
-                    touch_interrupted(f, 1 + (c >> 12) % 16)     # first use of the fresh value
+                    touch_interrupted(f, 1 + (c >> 12) % 48)     # first use of the fresh value
                 touch(f)
     if isinstance(f, str):
         f = fmtstr(f)
